@@ -131,7 +131,8 @@ QString QXmppUtils::datetimeToString(const QDateTime &dt)
 ///
 int QXmppUtils::timezoneOffsetFromString(const QString &str)
 {
-    static const QRegularExpression timezoneRegex(u"(Z|([+-])([0-9]{2}):([0-9]{2}))"_s);
+    // minutes above 59 are not a time-zone offset (and could not be written back in the hh:mm form)
+    static const QRegularExpression timezoneRegex(u"(Z|([+-])([0-9]{2}):([0-5][0-9]))"_s);
 
     const auto match = timezoneRegex.match(str);
     if (!match.hasMatch()) {
